@@ -1,6 +1,9 @@
 package core
 
-import "io"
+import (
+	"html"
+	"io"
+)
 
 // TableHead is the <thead> section of a table that contains the table heading
 // cells.
@@ -18,7 +21,8 @@ func (c *TableHead) WriteHTMLTo(w io.Writer) (int64, error) {
 	n := appendString(w, `<thead><tr>`)
 
 	for _, column := range c.columns {
-		n += appendSprintf(w, `<th scope="col">%s</th>`, column)
+		n += appendSprintf(w, `<th scope="col">%s</th>`,
+			html.EscapeString(column))
 	}
 
 	n += appendString(w, `</tr></thead>`)
